@@ -241,3 +241,81 @@ package template
 //@   ensures unquoted: c.state != stateTag && c.state != stateAttrName && c.state != stateAfterName && c.state != stateHTMLCmt && !(c.state == stateText && len(c.element.names) == 0 && len(c.element.name) == 0) && (len(c.attr.name) > 0 || len(c.attr.names) > 0) && c.delim != delimDoubleQuote && c.delim != delimSingleQuote ==> !isnil(err)
 //@   ensures attr: c.state != stateTag && c.state != stateAttrName && c.state != stateAfterName && c.state != stateHTMLCmt && !(c.state == stateText && len(c.element.names) == 0 && len(c.element.name) == 0) && (len(c.attr.name) > 0 || len(c.attr.names) > 0) && isnil(err) ==> forall(ii, 0, len(ite(len(c.element.names) == 0, single(c.element.name), c.element.names)), forall(jj, 0, len(ite(len(c.attr.names) == 0, single(c.attr.name), c.attr.names)), pairok(at(ite(len(c.element.names) == 0, single(c.element.name), c.element.names), ii), at(ite(len(c.attr.names) == 0, single(c.attr.name), c.attr.names), jj), fields(c.linkRel), r, c.attr.value, c.attr.ambiguousValue)))
 //@   ensures content: c.state != stateTag && c.state != stateAttrName && c.state != stateAfterName && c.state != stateHTMLCmt && !(c.state == stateText && len(c.element.names) == 0 && len(c.element.name) == 0) && len(c.attr.name) == 0 && len(c.attr.names) == 0 && isnil(err) ==> len(r) <= 1 && forall(k, 0, len(ite(len(c.element.names) == 0, single(c.element.name), c.element.names)), contentmin(at(ite(len(c.element.names) == 0, single(c.element.name), c.element.names), k)) != 0 && ite(len(r) == 1, trustge(clsofname(at(r, 0)), contentmin(at(ite(len(c.element.names) == 0, single(c.element.name), c.element.names), k))), trustge(cls_None(), contentmin(at(ite(len(c.element.names) == 0, single(c.element.name), c.element.names), k)))))
+
+//@ func sanitizeHTML(args ...interface{}) (r string, err error)
+//@   serves C03 C01 C02
+//@   ensures total: isnil(err)
+//@   ensures own: len(args) > 0 && basetag(at(args, 0)) == tagHTML ==> seqeq(r, contents(at(args, 0)))
+//@   ensures other: len(args) == 1 && basetag(at(args, 0)) != tagHTML && 1 <= basetag(at(args, 0)) && basetag(at(args, 0)) <= 9 ==> seqeq(r, htmlesc(coerce(contents(at(args, 0)))))
+
+//@ func sanitizeRCDATA(args ...interface{}) (r string, err error)
+//@   serves C03 C01 C02
+//@   ensures total: isnil(err)
+//@   ensures always: len(args) == 1 && 1 <= basetag(at(args, 0)) && basetag(at(args, 0)) <= 9 ==> seqeq(r, htmlesc(coerce(contents(at(args, 0)))))
+
+//@ func sanitizeHTMLValOnly(args ...interface{}) (r string, err error)
+//@   serves C03 C02
+//@   ensures own: isnil(err) == (len(args) > 0 && basetag(at(args, 0)) == tagHTML)
+//@   ensures value: isnil(err) ==> seqeq(r, contents(at(args, 0)))
+
+//@ func sanitizeIdentifier(args ...interface{}) (r string, err error)
+//@   serves C03 C02
+//@   ensures own: isnil(err) == (len(args) > 0 && basetag(at(args, 0)) == tagIdentifier)
+//@   ensures value: isnil(err) ==> seqeq(r, contents(at(args, 0)))
+
+//@ func sanitizeScript(args ...interface{}) (r string, err error)
+//@   serves C03 C02
+//@   ensures own: isnil(err) == (len(args) > 0 && basetag(at(args, 0)) == tagScript)
+//@   ensures value: isnil(err) ==> seqeq(r, contents(at(args, 0)))
+
+//@ func sanitizeStyle(args ...interface{}) (r string, err error)
+//@   serves C03 C02
+//@   ensures own: isnil(err) == (len(args) > 0 && basetag(at(args, 0)) == tagStyle)
+//@   ensures value: isnil(err) ==> seqeq(r, contents(at(args, 0)))
+
+//@ func sanitizeStyleSheet(args ...interface{}) (r string, err error)
+//@   serves C03 C02
+//@   ensures own: isnil(err) == (len(args) > 0 && basetag(at(args, 0)) == tagStyleSheet)
+//@   ensures value: isnil(err) ==> seqeq(r, contents(at(args, 0)))
+
+//@ func sanitizeTrustedResourceURL(args ...interface{}) (r string, err error)
+//@   serves C03 C02
+//@   ensures own: isnil(err) == (len(args) > 0 && basetag(at(args, 0)) == tagTrustedResourceURL)
+//@   ensures value: isnil(err) ==> seqeq(r, contents(at(args, 0)))
+
+//@ func sanitizeTrustedResourceURLOrURL(args ...interface{}) (r string, err error)
+//@   serves C03 C02
+//@   ensures total: isnil(err)
+//@   ensures own: len(args) > 0 && (basetag(at(args, 0)) == tagTrustedResourceURL || basetag(at(args, 0)) == tagURL) ==> seqeq(r, contents(at(args, 0)))
+//@   ensures other: len(args) == 1 && basetag(at(args, 0)) != tagTrustedResourceURL && basetag(at(args, 0)) != tagURL && 1 <= basetag(at(args, 0)) && basetag(at(args, 0)) <= 9 ==> ite(inlang(URLAccept, contents(at(args, 0))), seqeq(r, contents(at(args, 0))), seqeq(r, "about:invalid#zGoSafez"))
+
+//@ func sanitizeURL(args ...interface{}) (r string, err error)
+//@   serves C03 C02
+//@   ensures total: isnil(err)
+//@   ensures own: len(args) > 0 && basetag(at(args, 0)) == tagURL ==> seqeq(r, contents(at(args, 0)))
+//@   ensures other: len(args) == 1 && basetag(at(args, 0)) != tagURL && 1 <= basetag(at(args, 0)) && basetag(at(args, 0)) <= 9 ==> ite(inlang(URLAccept, contents(at(args, 0))), seqeq(r, contents(at(args, 0))), seqeq(r, "about:invalid#zGoSafez"))
+
+//@ func sanitizeURLSet(args ...interface{}) (r string, err error)
+//@   serves C03 C02
+//@   ensures total: isnil(err)
+//@   ensures always: len(args) == 1 && 1 <= basetag(at(args, 0)) && basetag(at(args, 0)) <= 9 ==> seqeq(r, urlsetsan(contents(at(args, 0))))
+
+//@ func sanitizeAsyncEnum(args ...interface{}) (r string, err error)
+//@   serves C03 C04
+//@   ensures words: isnil(err) ==> pol_enumword(cls_AsyncEnum(), r)
+
+//@ func sanitizeDirEnum(args ...interface{}) (r string, err error)
+//@   serves C03 C04
+//@   ensures words: isnil(err) ==> pol_enumword(cls_DirEnum(), r)
+
+//@ func sanitizeLoadingEnum(args ...interface{}) (r string, err error)
+//@   serves C03 C04
+//@   ensures words: isnil(err) ==> pol_enumword(cls_LoadingEnum(), r)
+
+//@ func sanitizeTargetEnum(args ...interface{}) (r string, err error)
+//@   serves C03 C04
+//@   ensures words: isnil(err) ==> pol_enumword(cls_TargetEnum(), r)
+
+//@ func sanitizeHTMLComment(_ ...interface{}) (r string)
+//@   serves C02 C01
+//@   ensures dropped: len(r) == 0
